@@ -117,6 +117,7 @@ def ob_hessian_elem(n, ii, jj, one_sided):
 
         def thunk(ex):
             p0 = VList(p0s); p0.owner = 'p0'
+            p0.attrs['dtype'] = 'any'
             eps = VList(epss, 'ndarray'); eps.owner = 'eps'
             f0 = func.fn(p0)
             del calls[:]
@@ -125,14 +126,17 @@ def ob_hessian_elem(n, ii, jj, one_sided):
                 kw['one_sided'] = VList(list(one_sided))
             r = ex.apply(f.node, None, f.mod, [func, f0, p0, ii, jj, eps], kw, 'hessian_elem')
             bad = [e for e in ex.ctx.log if e[0] == 'mutate' and e[3] in ('p0', 'eps')]
-            return (r, bad, [list(x) for x in p0.items and [p0.items]], list(calls))
+            return (r, bad, [e for e in ex.ctx.log if e[0] == 'dtype-risk'], list(calls))
         paths = ex.explore(thunk, base_pc=hyps)
         out = []
         for k, p in enumerate(paths):
             if p.outcome != 'return':
                 out.append(struct('%s.path%d' % (oid, k), False, 'raises %s' % p.exc, fn))
                 continue
-            val, bad, _, _ = p.value
+            val, bad, risk, _ = p.value
+            out.append(struct('%s.path%d.element-type' % (oid, k), not risk, 'perturbed parameter vectors are float arrays whatever the caller passed' if not risk else
+                              'a perturbed value (%s) is stored into an array whose element type the caller\'s p0 decides' % vrepr(risk[0][2])[:60], fn,
+                              finding_key='C19/hessian_elem/element-type'))
             out.append(prove_eq('%s.path%d' % (oid, k), p.pc, val, H[ii][jj], func=fn, timeout_ms=60000,
                                 replay=lambda m, _p=p: _replay_hess_elem(n, ii, jj, one_sided, m)))
             out.append(struct('%s.path%d.frame' % (oid, k), not bad, 'assigns nothing in p0, eps; mutations seen: %r' % (bad,), fn))
@@ -199,16 +203,21 @@ def ob_get_grad(n, kind):
 
         def thunk(ex):
             p0 = VList(p0s); p0.owner = 'p0'
+            p0.attrs['dtype'] = 'any'          # the caller may pass integers (a list of ints, an int array): see the element-type clause below
             r = ex.apply(f.node, None, f.mod, [func, p0, eps], {}, 'get_grad')
             bad = [e for e in ex.ctx.log if e[0] == 'mutate' and e[3] == 'p0']
-            return (r, bad)
+            risk = [e for e in ex.ctx.log if e[0] == 'dtype-risk']
+            return (r, bad, risk)
         paths = ex.explore(thunk, base_pc=hyps)
         out = []
         for k, p in enumerate(paths):
             if p.outcome != 'return':
                 out.append(struct('%s.path%d' % (oid, k), False, 'raises %s' % p.exc, fn))
                 continue
-            grad, bad = p.value
+            grad, bad, risk = p.value
+            out.append(struct('%s.path%d.element-type' % (oid, k), not risk, 'perturbed parameter vectors are float arrays whatever the caller passed' if not risk else
+                              'a perturbed value (%s) is stored into an array whose element type the caller\'s p0 decides: integer parameters are truncated back'
+                              % vrepr(risk[0][2])[:60], fn, finding_key='C19/get_grad/element-type'))
             for i in range(n):
                 gi = grad.items[i]
                 gi = gi.items[0] if isinstance(gi, VList) else gi
@@ -239,16 +248,20 @@ def ob_get_hess(n):
 
         def thunk(ex):
             p0 = VList(p0s); p0.owner = 'p0'
+            p0.attrs['dtype'] = 'any'
             r = ex.apply(f.node, None, f.mod, [func, p0, eps], {}, 'get_hess')
             bad = [e for e in ex.ctx.log if e[0] == 'mutate' and e[3] == 'p0']
-            return (r, bad)
+            return (r, bad, [e for e in ex.ctx.log if e[0] == 'dtype-risk'])
         paths = ex.explore(thunk, base_pc=hyps)
         out = []
         for k, p in enumerate(paths):
             if p.outcome != 'return':
                 out.append(struct('%s.path%d' % (oid, k), False, 'raises %s' % p.exc, fn))
                 continue
-            hess, bad = p.value
+            hess, bad, risk = p.value
+            out.append(struct('%s.path%d.element-type' % (oid, k), not risk, 'perturbed parameter vectors are float arrays whatever the caller passed' if not risk else
+                              'a perturbed value (%s) is stored into an array whose element type the caller\'s p0 decides' % vrepr(risk[0][2])[:60], fn,
+                              finding_key='C19/get_hess/element-type'))
             for i in range(n):
                 for j in range(n):
                     out.append(prove_eq('%s.path%d.%d%d' % (oid, k, i, j), p.pc, hess.items[i].items[j], H[i][j], func=fn, timeout_ms=60000))
